@@ -26,10 +26,17 @@ def append_revision(rng, case, opts, rev):
             if n["k"] == "interface" and rng.random() < 0.5:
                 for _ in range(rng.randint(1, 3)):
                     r = rng.random()
+                    # names that coincide with what a backend derives from a method name
+                    # (`<I>_OP_<m>` in C) are ordinary identifiers of the IDL
+                    own_methods = [m["name"] for m in n["members"] if m["k"] == "method"]
+                    taken = {m["name"] for m in n["members"]}
+                    odd = "OP_" + rng.choice(own_methods) if own_methods and rng.random() < 0.3 else None
+                    if odd in taken:
+                        odd = None
                     if r < 0.25:
-                        n["members"].append({"k": "error", "name": nm.new("E")})
+                        n["members"].append({"k": "error", "name": odd or nm.new("E")})
                     elif r < 0.4:
-                        n["members"].append({"k": "const", "type": "uint32", "name": nm.new("K"), "value": str(rng.randrange(100))})
+                        n["members"].append({"k": "const", "type": "uint32", "name": odd or nm.new("K"), "value": str(rng.randrange(100))})
                     else:
                         n["members"].append(gen.gen_method(rng, nm, opts, structs, ifaces))
                 touched.add(n["name"])
@@ -139,6 +146,39 @@ def run(ctx, prop):
                 for nd in main["nodes"]:
                     if nd["k"] == "interface":
                         frags[nd["name"]] = method_fragments(res, "main", nd["name"], case)
+                # the op-code macros of the C stub as the C compiler evaluates them (not as the text
+                # reads): every flattened method of every main-file interface must have its MIR id
+                if res["c"][0] == 0:
+                    hdr = os.path.join(out, "main.h")
+                    # the macro is named after the interface that DECLARES the method (a derived
+                    # interface's stubs use the owner's macros); owners declared in this file only
+                    here = {nd["name"] for nd in main["nodes"] if nd["k"] == "interface"}
+                    wanted = sorted({(owner, m["name"], op) for nd in main["nodes"] if nd["k"] == "interface"
+                                     for owner, m, op in idl.flat_methods(case, nd["name"]) if owner in here})
+                    if wanted:
+                        # only the preprocessor lines of the header, in order (definitions, their
+                        # guards and redefinitions): independent of the declarations around them
+                        pp, cont = [], False
+                        for ln in open(hdr).read().split("\n"):
+                            st_ = ln.lstrip()
+                            if cont or (st_.startswith("#") and not st_.startswith("#include")):
+                                pp.append(ln)
+                                cont = ln.rstrip().endswith("\\")
+                        open(os.path.join(tmp, "ops_defs.h"), "w").write("\n".join(pp) + "\n")
+                        src = ['#include <stdio.h>', '#include <stdint.h>', '#include "ops_defs.h"', "int main(void) {"]
+                        src += [f'  printf("{I} {mn} %ld\\n", (long)({I}_OP_{mn}));' for I, mn, _ in wanted]
+                        src += ["  return 0;", "}"]
+                        open(os.path.join(tmp, "ops.c"), "w").write("\n".join(src) + "\n")
+                        cp = C.run(["gcc", "-w", "-I", tmp, os.path.join(tmp, "ops.c"), "-o", os.path.join(tmp, "ops")])
+                        if cp.returncode != 0:
+                            hist["ops_probe_failed"] = hist.get("ops_probe_failed", 0) + 1
+                        if cp.returncode == 0:
+                            got = {tuple(l.split()[:2]): int(l.split()[2]) for l in C.run([os.path.join(tmp, "ops")]).stdout.splitlines() if len(l.split()) == 3}
+                            hist["compiled_ops"] = hist.get("compiled_ops", 0) + len(got)
+                            bad_ops = [(I, mn, op, got.get((I, mn))) for I, mn, op in wanted if got.get((I, mn)) != op]
+                            if bad_ops:
+                                oracle_fail.append({"case": case, "failures": [{"error": "an op-code macro of the C stub evaluates to something else than the method's op-code",
+                                                                                "revision": rev, "examples": bad_ops[:4]}]})
                 cur = {"case": case, "facts": impl, "frags": frags}
                 if prev is not None:
                     for I in [x["name"] for x in next(f for f in prev["case"]["files"] if f["path"] == prev["case"]["main"])["nodes"] if x["k"] == "interface"]:
